@@ -1146,7 +1146,8 @@ func (r *xReplayer) step(i int, st xStep) *xMismatch {
 	}
 	unsteer()
 	steered = false
-	if mm := r.verify(i, st, counterBefore); mm != nil {
+	// a verdict found on the pool outranks a drift-level disagreement about the call itself
+	if mm := r.verify(i, st, counterBefore); mm != nil && (mm.kind == "verdict" || m == nil) {
 		return mm
 	}
 	return m
